@@ -21,6 +21,7 @@ FamMid == FamA \cup FamB({"maj", "7", "paren"})
 FamSmall == Special \cup {Mk("C", 0, sh, <<>>, b) : sh \in {"none", "min", "7", "maj7", "min7", "sus4", "dim", "5", "9", "hdim7", "maj6"},
                                                      b \in {<<>>, B(0, 3), B(-1, 7)}}
              \cup {Mk("C", 0, "maj", <<d>>, <<>>) : d \in {Deg(FALSE, 1, 9), Deg(FALSE, -1, 10), Deg(TRUE, 0, 3), Deg(FALSE, -1, 7)}}
+             \cup {Mk("C", 0, sh, <<>>, B(0, 7)) : sh \in {"none", "maj7", "min"}}     \* bass 11 semitones above the root
 Fam(n) == CASE n = "big" -> FamBig [] n = "mid" -> FamMid [] n = "small" -> FamSmall
 
 (* all spellings of a pitch class with at most two accidentals *)
